@@ -25,6 +25,8 @@
 (*   cell:   A_ij += Sum_q w_q |det J(X_q)| I(i, j; X_q)                   *)
 (*   facet:  X_q = F_f(perm(xi_q)),  scale = pdet(J(X_q) dF_f)             *)
 (*   vertex: X_q = the vertex, scale 1                                     *)
+(*   ridge:  X_q = V_a + perm(s_q) (V_b - V_a) on edge (a, b) of a 3D cell, *)
+(*           scale = |J(X_q) (V_b - V_a)|;  2D cell: the vertex, scale 1    *)
 (*   identity pull-back  v = vhat;  grad v = K^T grad vhat                 *)
 (*   covariant Piola     v = K^T vhat;  contravariant  v = J vhat / detJ   *)
 (*   interior facet: macro dof i <-> (side, local dof), layout [+, -];     *)
@@ -93,7 +95,8 @@ PartTensor(P, C, cs, part, pk) ==
       nsides == IF itype = "interior_facet" THEN 2 ELSE 1
       \* where the rule's points live: on the cell, on a facet, or at a vertex
       ptype == IF itype = "expression" THEN P.etype
-               ELSE IF itype = "cell" THEN "cell" ELSE IF itype = "vertex" THEN "vertex" ELSE "facet"
+               ELSE IF itype = "cell" THEN "cell" ELSE IF itype = "vertex" THEN "vertex"
+               ELSE IF itype = "ridge" THEN "ridge" ELSE "facet"
       NQ == Len(part.wts)
       XS == P.spaces[P.coord]                              \* coordinate element: blocked scalar space
       nxn == XS.subs[1].nn
@@ -102,9 +105,16 @@ PartTensor(P, C, cs, part, pk) ==
       Xq(s, q) ==
         IF ptype = "cell" THEN RSeq(part.pts[q])
         ELSE IF ptype = "vertex" THEN RefVerts(cell)[C.ent[s] + 1]
+        ELSE IF ptype = "ridge"
+             THEN RidgePoint(cell, C.ent[s] + 1, PermPoint(RidgeCell(cell), C.perm[s], RSeq(part.pts[q])))
         ELSE FacetPoint(cell, C.ent[s] + 1,
                         PermPoint(FacetCell(cell, C.ent[s] + 1), C.perm[s], RSeq(part.pts[q])))
-      PointsAgree == \A s \in 1..nsides, q \in 1..NQ : Xq(s, q) = RSeq(part.xq[s][q])
+      \* ridges: the harness also hands over the ridge's vertices as basix numbers them (C.rverts, 0-based)
+      RidgeAgree == ptype = "ridge" =>
+                      /\ C.ent[1] + 1 \in 1..Len(Ridges(cell))
+                      /\ Ridges(cell)[C.ent[1] + 1] = [k \in 1..Len(C.rverts) |-> C.rverts[k] + 1]
+      PointsAgree == /\ RidgeAgree
+                     /\ \A s \in 1..nsides, q \in 1..NQ : Xq(s, q) = RSeq(part.xq[s][q])
       \* geometry
       XD(s, n, c) == <<cs.x[s][n][c], 1>>
       Jac == [s \in 1..nsides |-> [q \in 1..NQ |-> [c \in 1..gd |-> [k \in 1..td |->
@@ -164,13 +174,19 @@ PartTensor(P, C, cs, part, pk) ==
       FacetJ(s, q) == LET ax == FacetAxes(cell, C.ent[s] + 1)      \* (td-1) vectors of length td
                       IN [c \in 1..gd |-> [a \in 1..(td - 1) |->
                             LET F(k) == RMul(Jac[s][q][c][k], ax[a][k]) IN RSumTo(F, td)]]
+      \* ridge of a 3D cell: physical tangent J (V_b - V_a), a gd-vector
+      RidgeJ(q) == LET ax == RidgeAxis(cell, C.ent[1] + 1)
+                   IN [c \in 1..gd |-> LET F(k) == RMul(Jac[1][q][c][k], ax[k]) IN RSumTo(F, td)]
+      IsRidge == itype = "ridge"
       Scale(q) ==
         IF itype = "expression" THEN One
         ELSE IF itype = "cell" THEN RAbs(DetJ[1][q])
+        ELSE IF IsRidge THEN (IF td = 2 THEN One ELSE RSqrt(Dot(RidgeJ(q), RidgeJ(q))))
         ELSE IF itype = "vertex" \/ td = 1 THEN One
         ELSE RSqrt(Det(Gram(FacetJ(1, q))))
       ScaleOk(q) == IF itype = "expression" THEN (td = gd \/ RIsSquare(Det(Gram(Jac[1][q]))))
                     ELSE IF itype = "cell" THEN (td = gd \/ RIsSquare(Det(Gram(Jac[1][q]))))
+                    ELSE IF IsRidge THEN (td = 2 \/ RIsSquare(Dot(RidgeJ(q), RidgeJ(q))))
                     ELSE IF itype = "vertex" \/ td = 1 THEN TRUE
                     ELSE RIsSquare(Det(Gram(FacetJ(1, q))))
       \* physical outward unit normal on side s
@@ -266,7 +282,7 @@ PartTensor(P, C, cs, part, pk) ==
       GeoOk == \A k \in 1..Len(part.geos) :
                  LET g == part.geos[k][1]  s == Side(part.geos[k][2])
                  IN /\ (g = "circumradius" => td \in {1, 2} /\ cell \in {"interval", "triangle"})
-                    /\ (g = "facetarea" => td \in {1, 2})
+                    /\ (g = "facetarea" => td \in {1, 2} /\ ~IsRidge)
                     /\ (GeoIsRoot(g) => RIsSquare(Geo2(g, s)))
       \* argument leaves: value for macro dof i (0-based over [+ side dofs, - side dofs])
       ArgDim(n) == P.spaces[P.args[n + 1]].dim
@@ -388,7 +404,10 @@ PartTensor(P, C, cs, part, pk) ==
           [] OTHER -> FALSE
       \* which square roots must be rational for this case to be inside the model
       NeedsNormal == part.uses_normal
-      InRange == /\ \A q \in 1..NQ : ScaleOk(q)
+      \* ridge integrals: codimension 2 (2D and 3D cells, square Jacobian), no facet normal, one side
+      RidgeOk == IsRidge => td \in {2, 3} /\ td = gd /\ ~NeedsNormal /\ C.perm[1] \in (IF td = 3 THEN {0, 1} ELSE {0})
+      InRange == /\ RidgeOk
+                 /\ \A q \in 1..NQ : ScaleOk(q)
                  /\ NeedsNormal => \A s \in 1..nsides, q \in 1..NQ : NormalOk(s, q)
                  /\ \A s \in 1..nsides, q \in 1..NQ : DetJ[s][q][1] # 0
                  /\ part.has_cond => \A q \in 1..NQ : ~Knife(part.tree, q)
@@ -397,6 +416,8 @@ PartTensor(P, C, cs, part, pk) ==
       WQM == [q \in 1..NQ |-> Up(RMul(RAbs(R(part.wts[q])),
                 IF itype = "expression" THEN One
                 ELSE IF itype = "cell" THEN PJ[1][q]
+                \* |J t| <= sum_k sum_c JacM_ck <= td PJ for a reference tangent t with entries in {-1, 0, 1}
+                ELSE IF IsRidge THEN (IF td = 2 THEN One ELSE RMul(RInt(td), PJ[1][q]))
                 ELSE IF itype = "vertex" \/ td = 1 THEN One ELSE RMul(RInt(td), PJ[1][q])))]
       n0 == IF P.rank >= 1 THEN nsides * ArgDim(0) ELSE 1
       n1 == IF P.rank >= 2 /\ ~P.diagonal THEN nsides * ArgDim(1) ELSE 1
